@@ -212,6 +212,10 @@ class Run:
                     grant[n] = distinct[1] if len(distinct) >= 2 and len(names) % 2 else distinct[0]
                     if grant[n] != prev["url"]:
                         self.count("regrant_older_url")
+                elif n in ASSET_NAMES and len(names) % 3 == 0:
+                    # asset caps are typically one global CDN URL handed to every agent in every region
+                    grant[n] = "https://asset-cdn.example.com/cap/%s" % n.lower()
+                    self.count("global_asset_url")
                 else:
                     grant[n] = self.fresh_url(s, r)
             if junk:
@@ -254,6 +258,10 @@ class Run:
                     except KeyError:
                         out.append(("seed-response:no-wrapper", "no wrapper cap registered for %s" % n))
                         continue
+                    # the whole point of a wrapper is a URL that belongs to one region of one session
+                    for k2, lst in m.entries.items():
+                        if k2 != key and any(e["type"] == CapType.WRAPPER and e["url"] == wurl for e in lst):
+                            out.append(("seed-response:wrapper-not-unique", "wrapper %s presented to region %r is also region %r's" % (wurl, key, k2)))
                     m.add(key, n + "ProxyWrapper", CapType.WRAPPER, wurl)
                     expected[n] = wurl
                     # the wrapper stands for the URL granted *now*: same path and query, only scheme and host are the proxy's
@@ -323,7 +331,7 @@ class Run:
             key = (s, r)
             region = self.region(s, r)
             cur = m.by_name(key, "Seed")["url"]
-            url = cur if same else self.fresh_url(s, r) + "/seed"
+            url = cur if same else self.fresh_url(s, r)       # like a real seed URL: unique last path component
             got = w.sessions[s].register_region(circuit_addr=region.circuit_addr, seed_url=url, handle=region.handle)
             if got is not region:
                 out.append(("reseed:new-region-object", "register_region for a known circuit address returned a different region"))
